@@ -30,6 +30,10 @@ pub struct Case {
     /// the stub that holds non-negative integers in its unsigned form (two integer forms, one per number)
     #[serde(default)]
     pub posint: bool,
+    /// simdoc::MODE_ROTATE (every as_object call starts at another member; multiset comparison) or
+    /// simdoc::MODE_LISTMAP (lists also answer as_object with their positions as keys)
+    #[serde(default)]
+    pub mode: u8,
 }
 
 #[derive(Clone, Debug, Serialize, Deserialize)]
@@ -148,6 +152,12 @@ pub fn member_order_independent(q: &str) -> bool {
 /// For the member-order-shuffled stub: paths and values position by position when the query's order
 /// cannot depend on member order, as multisets otherwise.
 pub fn compare_shuffled(q: &str, want: &Canon, got: &Canon) -> Option<Diff> {
+    // A nodelist argument of a function is spliced into its argument list in enumeration order, so
+    // *which* nodes such a query selects may depend on the order in which an object lists its members
+    // (`nin(@.a, $.x[*])`): RFC 9535 leaves that order open, and so must this comparison.
+    if !member_order_independent(q) && ["in(", "nin(", "none_of(", "any_of(", "subset_of("].iter().any(|n| q.contains(n)) {
+        return None;
+    }
     if member_order_independent(q) {
         if let (Ok(w), Ok(g)) = (want, got) {
             if w.len() == g.len() {
@@ -233,6 +243,14 @@ pub fn check_case(c: &Case) -> Option<Diff> {
         let got = eval_shared(&sd, Personality(c.personality), &c.query);
         return compare(&want, &got);
     }
+    if c.mode != 0 {
+        let sd = SimDoc::from_value(&c.doc);
+        sim_locs(&sd, &mut vec![], &mut locs);
+        simdoc::set_mode(c.mode);
+        let got = eval_sim(&sd, &locs, Personality(c.personality), &c.query);
+        simdoc::set_mode(0);
+        return if c.mode & simdoc::MODE_ROTATE != 0 { compare_shuffled(&c.query, &want, &got.canon) } else { compare(&want, &got.canon) };
+    }
     let got = if c.fat {
         let sd = FatDoc::from_value(&c.doc);
         sim_locs(&sd, &mut vec![], &mut locs);
@@ -288,7 +306,7 @@ fn shrink_doc(c: &Case, class: &str) -> Case {
         rounds += 1;
         let mut progressed = false;
         for d in cands(&cur.doc) {
-            let cand = Case { personality: cur.personality, doc: d, query: cur.query.clone(), fat: cur.fat, shared: cur.shared, shuffled: cur.shuffled, posint: cur.posint };
+            let cand = Case { personality: cur.personality, doc: d, query: cur.query.clone(), fat: cur.fat, shared: cur.shared, shuffled: cur.shuffled, posint: cur.posint, mode: cur.mode };
             if check_case(&cand).map(|x| x.class == class).unwrap_or(false) {
                 cur = cand;
                 progressed = true;
@@ -303,7 +321,7 @@ fn shrink_doc(c: &Case, class: &str) -> Case {
     for _ in 0..40 {
         let mut progressed = false;
         for q in gen::shrink_query(&cur.query) {
-            let cand = Case { personality: cur.personality, doc: cur.doc.clone(), query: q, fat: cur.fat, shared: cur.shared, shuffled: cur.shuffled, posint: cur.posint };
+            let cand = Case { personality: cur.personality, doc: cur.doc.clone(), query: q, fat: cur.fat, shared: cur.shared, shuffled: cur.shuffled, posint: cur.posint, mode: cur.mode };
             if check_case(&cand).map(|x| x.class == class).unwrap_or(false) {
                 cur = cand;
                 progressed = true;
@@ -317,7 +335,7 @@ fn shrink_doc(c: &Case, class: &str) -> Case {
     for _ in 0..100 {
         let mut progressed = false;
         for d in cands(&cur.doc) {
-            let cand = Case { personality: cur.personality, doc: d, query: cur.query.clone(), fat: cur.fat, shared: cur.shared, shuffled: cur.shuffled, posint: cur.posint };
+            let cand = Case { personality: cur.personality, doc: d, query: cur.query.clone(), fat: cur.fat, shared: cur.shared, shuffled: cur.shuffled, posint: cur.posint, mode: cur.mode };
             if check_case(&cand).map(|x| x.class == class).unwrap_or(false) {
                 cur = cand;
                 progressed = true;
@@ -330,7 +348,7 @@ fn shrink_doc(c: &Case, class: &str) -> Case {
     }
     // a plainer stub that still shows it
     if cur.fat || cur.shared {
-        let cand = Case { personality: cur.personality, doc: cur.doc.clone(), query: cur.query.clone(), fat: false, shared: false, shuffled: cur.shuffled, posint: cur.posint };
+        let cand = Case { personality: cur.personality, doc: cur.doc.clone(), query: cur.query.clone(), fat: false, shared: false, shuffled: cur.shuffled, posint: cur.posint, mode: cur.mode };
         if check_case(&cand).map(|x| x.class == class).unwrap_or(false) {
             cur = cand;
         }
@@ -338,7 +356,7 @@ fn shrink_doc(c: &Case, class: &str) -> Case {
     // a simpler personality that still shows it
     for bit in [32u8, 16, 8, 4, 2, 1] {
         if cur.personality & bit != 0 {
-            let cand = Case { personality: cur.personality & !bit, doc: cur.doc.clone(), query: cur.query.clone(), fat: cur.fat, shared: cur.shared, shuffled: cur.shuffled, posint: cur.posint };
+            let cand = Case { personality: cur.personality & !bit, doc: cur.doc.clone(), query: cur.query.clone(), fat: cur.fat, shared: cur.shared, shuffled: cur.shuffled, posint: cur.posint, mode: cur.mode };
             if check_case(&cand).map(|x| x.class == class).unwrap_or(false) {
                 cur = cand;
             }
@@ -365,6 +383,7 @@ struct FamOut {
     evals: u64,
     fat_evals: u64,
     posint_evals: u64,
+    mode_evals: u64,
     shared_evals: u64,
     shuffled_evals: u64,
     nonempty: u64,
@@ -379,7 +398,7 @@ struct FamOut {
 }
 
 fn run_family(seed: u64, f: u64, q_per_fam: usize) -> FamOut {
-    let mut out = FamOut { evals: 0, fat_evals: 0, posint_evals: 0, shared_evals: 0, shuffled_evals: 0, nonempty: 0, shapes: BTreeSet::new(), counts: [0; simdoc::N_ACC], by_pers: [0; 256], errs: 0, first: None, n_viol: 0, sample: None, classes: BTreeMap::new() };
+    let mut out = FamOut { evals: 0, fat_evals: 0, posint_evals: 0, mode_evals: 0, shared_evals: 0, shuffled_evals: 0, nonempty: 0, shapes: BTreeSet::new(), counts: [0; simdoc::N_ACC], by_pers: [0; 256], errs: 0, first: None, n_viol: 0, sample: None, classes: BTreeMap::new() };
     let mut rng = Rng::new(derive(seed, "c15fam", f));
     let p = match f % 11 {
         3 => DocParams { max_nodes: 60 + rng.below(60), max_depth: 2 + rng.below(2), names: gen::NAMES_C15, max_width: 14, long_arrays: true, mixed_names: false },
@@ -474,7 +493,7 @@ fn run_family(seed: u64, f: u64, q_per_fam: usize) -> FamOut {
                         out.n_viol += 1;
                         *out.classes.entry(diff.class.clone()).or_insert(0) += 1;
                         if out.first.is_none() {
-                            out.first = Some((f, Case { personality: pers, doc: d.clone(), query: q.clone(), fat: false, shared: false, shuffled: Some(shuf_seed), posint: false }, diff));
+                            out.first = Some((f, Case { personality: pers, doc: d.clone(), query: q.clone(), fat: false, shared: false, shuffled: Some(shuf_seed), posint: false, mode: 0 }, diff));
                         }
                     }
                 }
@@ -490,8 +509,25 @@ fn run_family(seed: u64, f: u64, q_per_fam: usize) -> FamOut {
                         out.n_viol += 1;
                         *out.classes.entry(diff.class.clone()).or_insert(0) += 1;
                         if out.first.is_none() {
-                            out.first = Some((f, Case { personality: pers, doc: d.clone(), query: q.clone(), fat: false, shared: true, shuffled: None, posint: false }, diff));
+                            out.first = Some((f, Case { personality: pers, doc: d.clone(), query: q.clone(), fat: false, shared: true, shuffled: None, posint: false, mode: 0 }, diff));
                         }
+                    }
+                }
+            }
+            // a store whose every enumeration of an object starts at another member (multiset comparison),
+            // and one whose lists also answer as_object
+            for (m, pers) in [(simdoc::MODE_ROTATE, 0u8), (simdoc::MODE_LISTMAP, 0u8), (simdoc::MODE_LISTMAP, 7u8)] {
+                simdoc::set_mode(m);
+                let got = eval_sim(&sd, &locs, Personality(pers), q);
+                simdoc::set_mode(0);
+                out.evals += 1;
+                out.mode_evals += 1;
+                let diff = if m == simdoc::MODE_ROTATE { compare_shuffled(q, &want, &got.canon) } else { compare(&want, &got.canon) };
+                if let Some(diff) = diff {
+                    out.n_viol += 1;
+                    *out.classes.entry(diff.class.clone()).or_insert(0) += 1;
+                    if out.first.is_none() {
+                        out.first = Some((f, Case { personality: pers, doc: d.clone(), query: q.clone(), fat: false, shared: false, shuffled: None, posint: false, mode: m }, diff));
                     }
                 }
             }
@@ -504,7 +540,7 @@ fn run_family(seed: u64, f: u64, q_per_fam: usize) -> FamOut {
                     out.n_viol += 1;
                     *out.classes.entry(diff.class.clone()).or_insert(0) += 1;
                     if out.first.is_none() {
-                        out.first = Some((f, Case { personality: pers, doc: d.clone(), query: q.clone(), fat: false, shared: false, shuffled: None, posint: true }, diff));
+                        out.first = Some((f, Case { personality: pers, doc: d.clone(), query: q.clone(), fat: false, shared: false, shuffled: None, posint: true, mode: 0 }, diff));
                     }
                 }
             }
@@ -519,7 +555,7 @@ fn run_family(seed: u64, f: u64, q_per_fam: usize) -> FamOut {
                     out.n_viol += 1;
                     *out.classes.entry(diff.class.clone()).or_insert(0) += 1;
                     if out.first.is_none() {
-                        out.first = Some((f, Case { personality: pers, doc: d.clone(), query: q.clone(), fat: false, shared: false, shuffled: None, posint: false }, diff));
+                        out.first = Some((f, Case { personality: pers, doc: d.clone(), query: q.clone(), fat: false, shared: false, shuffled: None, posint: false, mode: 0 }, diff));
                     }
                 }
             }
@@ -532,7 +568,7 @@ fn run_family(seed: u64, f: u64, q_per_fam: usize) -> FamOut {
                     out.n_viol += 1;
                     *out.classes.entry(diff.class.clone()).or_insert(0) += 1;
                     if out.first.is_none() {
-                        out.first = Some((f, Case { personality: pers, doc: d.clone(), query: q.clone(), fat: true, shared: false, shuffled: None, posint: false }, diff));
+                        out.first = Some((f, Case { personality: pers, doc: d.clone(), query: q.clone(), fat: true, shared: false, shuffled: None, posint: false, mode: 0 }, diff));
                     }
                 }
             }
@@ -553,7 +589,7 @@ fn run_family(seed: u64, f: u64, q_per_fam: usize) -> FamOut {
                     out.n_viol += 1;
                     *out.classes.entry(diff.class.clone()).or_insert(0) += 1;
                     if out.first.is_none() {
-                        out.first = Some((f, Case { personality: pers, doc: d.clone(), query: q.clone(), fat: false, shared: false, shuffled: None, posint: false }, diff));
+                        out.first = Some((f, Case { personality: pers, doc: d.clone(), query: q.clone(), fat: false, shared: false, shuffled: None, posint: false, mode: 0 }, diff));
                     }
                 } else if out.sample.is_none() && pers == 7 {
                     if let Ok(v) = &got.canon {
@@ -602,6 +638,7 @@ pub fn drive(tier_name: &str, seed: u64, workers: usize) -> i32 {
     let mut evals = 0u64;
     let mut fat_evals = 0u64;
     let mut posint_evals = 0u64;
+    let mut mode_evals = 0u64;
     let mut shared_evals = 0u64;
     let mut shuffled_evals = 0u64;
     let mut nonempty = 0u64;
@@ -617,6 +654,7 @@ pub fn drive(tier_name: &str, seed: u64, workers: usize) -> i32 {
         evals += o.evals;
         fat_evals += o.fat_evals;
         posint_evals += o.posint_evals;
+        mode_evals += o.mode_evals;
         shared_evals += o.shared_evals;
         shuffled_evals += o.shuffled_evals;
         nonempty += o.nonempty;
@@ -783,6 +821,7 @@ pub fn drive(tier_name: &str, seed: u64, workers: usize) -> i32 {
         "single_threaded_evaluations": evals,
         "evaluations_over_the_large_node_type": fat_evals,
         "evaluations_over_the_two_integer_forms_stub": posint_evals,
+        "evaluations_over_the_rotating_and_list_as_table_stubs": mode_evals,
         "evaluations_over_the_sharing_stub": shared_evals,
         "evaluations_over_the_member_order_shuffled_stub": shuffled_evals,
         "node_sizes_in_bytes": {"serde_json::Value": std::mem::size_of::<Value>(), "SimDoc": std::mem::size_of::<SimDoc>(), "FatDoc": std::mem::size_of::<FatDoc>()},
